@@ -271,6 +271,7 @@ pub struct RecvTruth {
     /// the oracles that presuppose a truthful one do not apply from then on
     pub untruthful: bool,
     pub cancel_end_checked: bool,
+    pub dest_in_requests: bool,
 }
 
 pub struct RecvCase {
@@ -522,6 +523,13 @@ impl RecvCase {
                     if !self.truth.meta_delivered {
                         self.truth.meta_delivered = true;
                         self.truth.dest = Some(m.destination_filename.to_string());
+                        // filestore requests that name the destination file change it legitimately after the copy
+                        let norm = |p: &str| p.trim_start_matches('/').to_string();
+                        let d = norm(m.destination_filename.as_str());
+                        self.truth.dest_in_requests = m.options.iter().any(|t| match t {
+                            MetadataTLV::FileStoreRequest(r) => norm(r.first_filename.as_str()) == d || norm(r.second_filename.as_str()) == d,
+                            _ => false,
+                        });
                         self.truth.closure = m.closure_requested;
                         self.truth.transfer = !m.source_filename.as_str().is_empty();
                     }
@@ -589,7 +597,7 @@ impl RecvCase {
                             let prop = if self.cfg.mode == TransmissionMode::Unacknowledged { "C18" } else { "C01" };
                             self.bad(out, viol, prop, "complete_without_data", format!("{} reported although metadata/data are missing (meta={}, eof={:?}, held={:?})", ind_repr(i), self.truth.meta_delivered, self.truth.eof_size, self.truth.delivered));
                         }
-                        if f.file_status == FileStatusCode::Retained && !self.truth.untruthful {
+                        if f.file_status == FileStatusCode::Retained && !self.truth.untruthful && !self.truth.dest_in_requests {
                             if let (Some(file), Some(dest)) = (&self.truth.file, &self.truth.dest) {
                                 let got = std::fs::read(self.root.join(dest)).ok();
                                 if got.as_deref() != Some(&file[..]) {
